@@ -134,6 +134,13 @@ func (c *Client) handleAcceptVersion(msg protocol.Message) error {
 		)
 	}
 	msgAcceptVersion := msg.(*MsgAcceptVersion)
+	proposedData, proposed := c.config.ProtocolVersionMap[msgAcceptVersion.Version]
+	if !proposed {
+		return fmt.Errorf(
+			"peer accepted protocol version %d, which was not proposed",
+			msgAcceptVersion.Version,
+		)
+	}
 	protoVersion := protocol.GetProtocolVersion(msgAcceptVersion.Version)
 	if protoVersion.NewVersionDataFromCborFunc == nil {
 		return fmt.Errorf(
@@ -146,6 +153,15 @@ func (c *Client) handleAcceptVersion(msg protocol.Message) error {
 	)
 	if err != nil {
 		return err
+	}
+	if proposedData != nil &&
+		versionData.NetworkMagic() != proposedData.NetworkMagic() {
+		return fmt.Errorf(
+			"peer accepted protocol version %d with network magic %d, expected %d",
+			msgAcceptVersion.Version,
+			versionData.NetworkMagic(),
+			proposedData.NetworkMagic(),
+		)
 	}
 	return c.config.FinishedFunc(
 		c.callbackContext,
